@@ -15,7 +15,7 @@ from ..ctx import Result, Viol, reset_globals
 
 LEVEL = "exploration"
 WORKERS = {"quick": 8, "thorough": 16}
-BUDGET_S = {"quick": 50, "thorough": 650}
+BUDGET_S = {"quick": 45, "thorough": 650}
 RULE = (
     "Two generated halves. PURE: an entry set {key tuple -> oid} (nested keys over a name pool with "
     "sort-sensitive names such as 'a', 'a.dir', 'a b', 'a!', non-ASCII, quotes), per-entry Meta variants, a "
@@ -568,8 +568,8 @@ def run_case(case, ctx):
 def run(ctx):
     # the filesystem half goes first: it is the smaller one and must not be starved by the budget
     if ctx.run_given(fs_cases(thorough=ctx.tier == "thorough"), run_case,
-                     ctx.n(quick=120, thorough=1500)):
-        ctx.run_given(pure_cases(), run_case, ctx.n(quick=600, thorough=20000))
+                     ctx.n(quick=100, thorough=1500)):
+        ctx.run_given(pure_cases(), run_case, ctx.n(quick=500, thorough=20000))
 
 
 def replay(case, ctx):
